@@ -4,8 +4,8 @@ from ..core import KINDS, AnalysisError
 from ..ctors import ctor_paths, final_params, CtorHooks, ctor_args
 from ..laws import summarize_law, NN_PARAMS
 from ..terms import RF, lift, Unsupported
-from ..guards import Ctx, A, And, Not, atoms_of, show_f, f_pos
-from ..summ import Summarizer, State, Sym, ListV, vkey, show_value, to_num
+from ..guards import Ctx, A, And, Or, Not, atoms_of, show_f, f_pos
+from ..summ import Summarizer, State, Sym, ListV, vkey, show_value, to_num, signed
 from ..editrules import implies
 from ..effects import EditHooks, GuardedSummarizer
 
@@ -147,6 +147,19 @@ def r1(model, rep):
     rep.floor("R1", n, 11)
 
 
+def _mentions(x, atoms):
+    """does a value / atom key mention one of the parameter atoms (sign or magnitude of p)?"""
+    if isinstance(x, RF):
+        return bool(x.atoms() & atoms) or any(_mentions(a, atoms) for a in x.atoms())
+    if isinstance(x, Sym):
+        return _mentions(x.key, atoms)
+    if isinstance(x, tuple):
+        return x in atoms or any(_mentions(y, atoms) for y in x)
+    if isinstance(x, (ListV,)):
+        return any(_mentions(y, atoms) for y in x.items)
+    return False
+
+
 def r2(model, rep):
     rel = model.rel("components")
     n = 0
@@ -160,11 +173,14 @@ def r2(model, rep):
         hooks = CtorHooks(model, kind)
         sm = Summarizer(hooks, Ctx())
         env = ctor_args(fn)
+        from ..guards import f_zero
+        # a dict never compares equal to a number: ISA(p, dict) -> not (p == 0)
+        axioms = [Or(Not(A(("ISA", vkey(Sym(("name", p))), ("dict",)))), Not(f_zero(signed(p), Ctx()))) for p in sorted(hooks.table_params())]
         for oid, alts in OBLIGATIONS.get(kind, []):
             fs = [sm.cond(ast.parse(t, mode="eval").body, State(env)) for t in alts]
             ok = True
             for lf in acc:
-                if not any(implies(lf.guards, f)[0] for f in fs):
+                if not any(implies(list(lf.guards) + axioms, f)[0] for f in fs):
                     ok = False
                     rep.violation("R2", construct, where, "range check '%s' is not established on the accepting path {%s}; required: %s" % (oid, show_f(And(*lf.guards))[:300], show_f(fs[0])[:200]), "range check " + oid)
                     break
@@ -181,6 +197,26 @@ def r2(model, rep):
             if not lim or not (isinstance(lim[-1][2], Sym) and lim[-1][2].key[:2] == ("call", "_check_limits")):
                 ok = False
                 rep.violation("R2", construct, where, "the limits are stored without passing _check_limits", "limits unchecked")
+                break
+            # a parameter that may be a table: on an accepting path it is either known not to be a dict or it was validated
+            for p in sorted(hooks.table_params()):
+                isd = A(("ISA", vkey(Sym(("name", p))), ("dict",)))
+                checked = any(c[0] == "check" and c[1] == "_check_interp" and c[2] and vkey(hooks.root(c[2][0])) == vkey(Sym(("name", p))) for c in lf.events)
+                if checked:
+                    continue
+                # a parameter this path neither decides on nor stores / interpolates is ignored by it (ig on the diode path)
+                pa = {("s", p), ("m", p)}
+                used = any(isinstance(a, tuple) and (a in pa or (a and a[0] in ("ISA", "NONEMPTY") and (a[1:2] == (p,) or a[1:2] == (vkey(Sym(("name", p))),)))) or _mentions(a, pa) for g in lf.guards for a in atoms_of(g))
+                used = used or any(_mentions(v, pa) for v, _ in final_params(lf).values()) or any(e[0] == "interp" and any(_mentions(x, pa) for x in e[2]) for e in lf.events)
+                if not used:
+                    continue
+                from ..guards import f_zero
+                ax = Or(Not(f_zero(signed(p), Ctx())), Not(isd))     # a dict never compares equal to a number
+                if not implies(list(lf.guards) + [ax], Not(isd))[0]:
+                    ok = False
+                    rep.violation("R2", construct, where, "'%s' may be a table (dict) on the accepting path {%s} but is not validated there: e.g. an empty table passes a truthiness test as if it were 0" % (p, show_f(And(*lf.guards))[:200]), "table %s unvalidated" % p)
+                    break
+            if not ok:
                 break
             for i, e in enumerate(lf.events):
                 if e[0] == "interp" and e[1] in ("_Interp1d", "_Interp2d"):
